@@ -130,9 +130,10 @@ def run(ctx):
     ctx.note("replay_divergences_by_signature", by_sig)
 
     # binding self-test (spec -> code): a wrong expectation must be noticed
-    victim = next([nodes[n] for n in w] for w in walks if any(m["kind"] == "PREPARE" for m in nodes[w[-1]]["sent"])
-                  and nodes[w[-1]]["act"]["name"] == "RunReprepare")
-    forged = [dict(s) for s in victim]
+    start = next(i for i in init if dict(nodes[i]["cfg"]) == {"pv": 5, "sks": "ks", "cks": "ks"})
+    sw = _pg.follow(nodes, edges, start, [{"name": "Start"}, {"name": "AnsUnprepared", "h": "h1"}, {"name": "RunReprepare"},
+                                          {"name": "AnsPrepare", "resp": "same"}, {"name": "RunAfter"}, {"name": "AnsRows"}])
+    forged = [dict(nodes[n]) for n in sw[:4]]
     forged[-1]["sent"] = tuple(forged[-1]["sent"][:-1]) + (dict(forged[-1]["sent"][-1], ks="ks2"),)
     try:
         noticed = rr.replay(nhosts, forged) is not None
@@ -151,10 +152,7 @@ def run(ctx):
         cfgs.append(c)
     good = len(traces)
     # self-test on a trace synthesized from a specification behaviour (independent of the code under test)
-    sw = next(w for w in walks if len(w) >= 6 and [nodes[n]["act"]["name"] for n in w[1:5]] ==
-              ["Start", "AnsUnprepared", "RunReprepare", "AnsPrepare"] and nodes[w[4]]["act"]["resp"] == "same"
-              and nodes[w[5]]["act"]["name"] == "RunAfter")
-    synth = _pg.widen_reprepare_trace(rr.trace_of_states([nodes[n] for n in sw[:6]]), nhosts, tconsts["NHosts"])
+    synth = _pg.widen_reprepare_trace(rr.trace_of_states([nodes[n] for n in sw]), nhosts, tconsts["NHosts"])
     bad1 = copy.deepcopy(synth)
     bad1[2]["post"]["sent"][-1]["h"] = "h2"                    # PREPARE claimed to have gone to another host
     bad2 = copy.deepcopy(synth)
